@@ -39,7 +39,7 @@ class SchedAbort(BaseException):
 
 class T:
     __slots__ = ('name', 'sem', 'state', 'pred', 'wake_at', 'done', 'prio',
-                 'steps', 'what', 'ident', 'exc', 'timeout_at')
+                 'steps', 'what', 'ident', 'exc', 'timeout_at', 'loc')
 
     def __init__(self, name, prio):
         self.name = name
@@ -52,6 +52,7 @@ class T:
         self.prio = prio
         self.steps = 0
         self.what = ''
+        self.loc = 'not-started'
         self.exc = None
 
 
@@ -151,6 +152,8 @@ class Sched:
         me.steps += 1
         if loc:
             self.locations[loc] = self.locations.get(loc, 0) + 1
+            me.what = me.what if me.state != 'ready' else ''
+            me.loc = loc
         if self.steps in self.change_points and not me.done:
             me.prio = self.rng.random() * 0.01      # PCT: lower the runner
         if self.steps > self.max_steps:
